@@ -306,10 +306,9 @@ class Extractor:
         link_name: str
         lines: List[str]
         for link_name, lines in self.link_lines.items():
-            if len(lines) > 1:
-                self.invalid_link_lines += len(lines)
-            else:
-                self.links_map[link_name] = lines[0]
+            # Like zic, the last definition of a link wins.
+            self.invalid_link_lines += len(lines) - 1
+            self.links_map[link_name] = lines[-1]
 
     def _read_line(self, input: TextIO) -> Optional[str]:
         """Return the next line, while supporting a one-line push_back().
